@@ -29,6 +29,8 @@ _TICK = [int]
 def set_tick(name=None):
     if not name or name == "int":
         _TICK[0] = int
+    elif name == "half":        # every tick of the description halved: content on the half-tick lattice (floats)
+        _TICK[0] = lambda t: t / 2
     else:
         import numpy as np
         _TICK[0] = getattr(np, name)
